@@ -631,6 +631,26 @@ def stepRunner (st : DState) (args : List String) : Option (DState × String) :=
     let w := if g1.pc == .upgraded && woke then k.wgWakes + 1 else k.wgWakes
     let res := if g.lastPoll == some true then "ready" else "pending"
     some ({ st with k := { k with wg := g, wgWakes := w } }, s!"{res} wakes={w}")
+  | ["g.pollh", pt, t] => do
+    -- a poll during which token `t` is dropped on "another thread" exactly at scheduling point `pt`
+    -- (1 = after upgrade, 2 = after the waker registration), via the cfg hook in WaitGroupFuture::poll
+    let point ← natArg pt
+    let i ← natArg t
+    let run (g : Runner.WG) (s : Runner.WStep) : Runner.WG := (Runner.wgStep g s).getD g
+    let dropNow (g : Runner.WG) : Runner.WG := run (run g (.tokenDec i)) (.tokenWake i)
+    let g0 := k.wg
+    let g1 := run g0 .pollUpgrade
+    if g1.pc != .upgraded then
+      let res := if g1.lastPoll == some true then "ready" else "pending"
+      some ({ st with k := { k with wg := g1 } }, s!"{res} wakes={k.wgWakes} hook=not-reached")
+    else
+      let g2 := if point == 1 then dropNow g1 else g1
+      let g3 := run g2 .pollRegister
+      let g4 := if point == 2 then dropNow g3 else g3
+      let g5 := run (run g4 .pollDropTemp) .pollWake
+      let w := if g5.wokenSinceRegister then k.wgWakes + 1 else k.wgWakes
+      let res := if g5.lastPoll == some true then "ready" else "pending"
+      some ({ st with k := { k with wg := g5, wgWakes := w } }, s!"{res} wakes={w} hook=fired")
   | ["g.drop", t] => do
     let i ← natArg t
     match Runner.wgStep k.wg (.tokenDec i) with
